@@ -101,4 +101,18 @@ func Time
 func (Params).Size
     def ite(o.Times, 8, 0) + ite(o.Keys, 8, 0) + 16
 
+// 64-bit FNV-1a of the key bytes: an uninterpreted function of the byte sequence (so the
+// proofs hold for colliding keys as well)
+spec keyHash(k bseq) uint64
+
+func KeyHash
+    flags assumed
+    ensures ret0 == keyHash(bseq(key))
+
+// the index item derived from a record (C11); the timestamp never decreases (C10)
+func (Params).NewItem
+    ensures[offpos] ret0.Offset == m.Offset && ret0.Position == position
+    ensures[ts]     ret0.Timestamp == ite(o.Times, max(micro(m.Time), prevts), 0)
+    ensures[hash]   ret0.KeyHash == ite(o.Keys, keyHash(bseq(m.Key)), 0)
+
 @*/
